@@ -22,12 +22,13 @@ Definition ref_names (r : ref) : list bytes :=
   | RPrefixedCol _ t c => [t; c]
   | RBare n => [n]
   | RNew n => [n]
+  | RLit _ n => [n]
   end.
 Definition ref_own (r : ref) : option bytes :=
   match r with
   | RTable t | RTableRes t _ => o_schema t
   | RSchemaRes s _ => s
-  | RType ns _ | RPrefixed ns _ | RPrefixedCol ns _ _ => ns
+  | RType ns _ | RPrefixed ns _ | RPrefixedCol ns _ _ | RLit ns _ => ns
   | RBare _ | RNew _ => None
   end.
 
@@ -108,18 +109,24 @@ Lemma enum_ref_ok (e : option (option bytes * bytes)) :
   Forall qualifying (match e with Some (ns, n) => [RType ns n] | None => [] end).
 Proof. destruct e as [[ns n]|]; repeat constructor. Qed.
 
-Lemma alter_fwd_ok pg s : Forall qualifying (alter_fwd pg s).
+Lemma alter_type_refs_ok o c te fs ts : Forall qualifying (alter_type_refs o c te fs ts).
 Proof.
-  destruct s; simpl; try constructor; try apply col_refs_ok; try (repeat constructor; fail).
-  destruct (pg && ty && negb to_serial); [apply enum_ref_ok|constructor].
-Qed.
-Lemma alter_bwd_ok pg s : Forall qualifying (alter_bwd pg s).
-Proof.
-  destruct s; simpl; try constructor; try apply col_refs_ok; try (repeat constructor; fail).
-  destruct (pg && ty && negb to_serial); [apply enum_ref_ok|constructor].
+  unfold alter_type_refs. destruct fs, ts; try constructor; try exact I; try constructor.
+  apply enum_ref_ok.
 Qed.
 
-Lemma alter_stmts_ok pg head l : qualifying head -> stmts_ok (alter_stmts pg head l).
+Lemma alter_fwd_ok pg o s : Forall qualifying (alter_fwd pg o s).
+Proof.
+  destruct s; simpl; try constructor; try apply col_refs_ok; try (repeat constructor; fail).
+  destruct (pg && ty); [apply alter_type_refs_ok|constructor].
+Qed.
+Lemma alter_bwd_ok pg o s : Forall qualifying (alter_bwd pg o s).
+Proof.
+  destruct s; simpl; try constructor; try apply col_refs_ok; try (repeat constructor; fail).
+  destruct (pg && ty); [apply alter_type_refs_ok|constructor].
+Qed.
+
+Lemma alter_stmts_ok pg o head l : qualifying head -> stmts_ok (alter_stmts pg o head l).
 Proof.
   intros H. unfold alter_stmts. destruct l as [|x l]; [constructor|].
   constructor.
@@ -135,8 +142,10 @@ Proof.
     + destruct (i_uconst i); [constructor|apply pg_drop_index_ok].
     + destruct parts; [|constructor]. destruct (i_uconst from); [constructor|apply pg_drop_index_ok].
   - apply stmts_ok_flat_map. intros s. destruct s; try constructor.
-    destruct ty; [|constructor]. destruct to_serial; [|constructor]. repeat constructor.
+    simpl. destruct from_ser, to_ser, ty; repeat constructor.
   - apply alter_stmts_ok. exact I.
+  - apply stmts_ok_flat_map. intros s. destruct s; try constructor.
+    simpl. destruct from_ser, to_ser, ty; repeat constructor.
   - apply stmts_ok_flat_map. intros s. destruct s; try constructor.
     + destruct (i_uconst i); [constructor|apply pg_add_index_ok].
     + destruct parts; [|constructor]. destruct (i_uconst to); [constructor|apply pg_add_index_ok].
